@@ -331,6 +331,34 @@ fn c03_gateway_constructor() {
     }
 }
 
+// HARNESS props=C03,C06 tier=quick profile=gw_init mode=strict shape="AxelarGateway::__constructor with one WELL-FORMED initial set (N=1), any configuration: construction must succeed and every public query must answer — nothing may trap or fail"
+#[kani::proof]
+fn c03_gateway_constructor_strict() {
+    let env = Env::default();
+    let owner = any::address(4);
+    let operator = any::address(4);
+    model::set_ledger(kani::any(), kani::any());
+    let set = any_set(&env, 1);
+    let s0 = set.signers.at(0).clone();
+    kani::assume(s0.signer.0 != [0u8; 32] && s0.weight != 0 && set.threshold != 0 && set.threshold <= s0.weight);
+    let h = ideal_hash(&set.clone().to_xdr(&env).0);
+    let res = model::with_contract(&gw(), || AxelarGateway::__constructor(env.clone(), owner.clone(), operator.clone(), any::b32(2), kani::any(), kani::any(), Vec::from_array(&env, [set.clone()])));
+    kani::assert(res.is_ok(), "VERIF:C03:a gateway with a well-formed initial set can be constructed");
+    use axelar_soroban_std::interfaces::{OperatableInterface as _, OwnableInterface as _};
+    let (o, p, e, eh, he) = model::with_contract(&gw(), || {
+        (
+            AxelarGateway::owner(&env),
+            AxelarGateway::operator(&env),
+            <AxelarGateway as AxelarGatewayInterface>::epoch(&env),
+            <AxelarGateway as AxelarGatewayInterface>::epoch_by_signers_hash(&env, BytesN(h)),
+            <AxelarGateway as AxelarGatewayInterface>::signers_hash_by_epoch(&env, 1),
+        )
+    });
+    kani::assert(o == owner && p == operator, "VERIF:C06:construction installs exactly the given owner and operator");
+    kani::assert(e == 1 && eh == Ok(1) && he == Ok(BytesN(h)), "VERIF:C03:after construction the epoch and both lookup queries report the initial set at epoch 1");
+    kani::cover!(owner != operator, "VERIF:reach:gateway constructed (strict)");
+}
+
 // HARNESS props=C03 tier=quick profile=gw_rot1 shape="lookup queries on an arbitrary seeded state"
 #[kani::proof]
 fn c03_lookup_queries() {
